@@ -82,6 +82,15 @@ Proof.
   - change pep517_chdir_restored_in_finally with true. reflexivity.
 Qed.
 
+(* a project whose analysis fails - raising setup.py or raising PEP 517 hook - is reported as a metadata
+   failure of that project, never as a foreign exception (finding C12-pep517-failure-escapes, fixed) *)
+Lemma failure_is_metadata_failure st p : o_escaped (fst (analyse st p)) = false.
+Proof.
+  unfold analyse. destruct (pj_kind p) as [|raises].
+  - destruct (run_ops _ _ _) as [[s2 seen] raised]. destruct (run_cleanup _ _ _ _ _) as [s3 cr]. reflexivity.
+  - cbn [fst o_escaped]. change pep517_failure_wrapped with true. now rewrite andb_false_r.
+Qed.
+
 (* a failing analysis is a failure for that project only: the state is untouched whatever the ending *)
 Corollary failure_is_local st p :
   quiescent st = true -> o_failed (fst (analyse st p)) = true -> snd (analyse st p) = st.
